@@ -234,6 +234,10 @@ def harness_build(variant="default"):
 
 def exec_path(variant="default"):
     tdir, feats, prof, extra = VARIANTS[variant]
+    # development aid (never set by the registered commands): a differently built executor for the default variant,
+    # e.g. one instrumented for coverage measurement of the generators (tools/coverage.sh)
+    if variant == "default" and os.environ.get("VERIF_EXEC_DEFAULT"):
+        return os.environ["VERIF_EXEC_DEFAULT"]
     return os.path.join(HARNESS, tdir, prof, "fatfs-exec")
 
 
